@@ -388,7 +388,7 @@ func genMatchCase(r *vlib.R, emit func(string)) int {
 			}
 		}
 		emit("bl state")
-		n += 1 + emitQueries(r, u, emit, 3+r.Intn(5))
+		n += 1 + reserve(r, emit, 2) + emitQueries(r, u, emit, 3+r.Intn(5))
 	}
 	emit("bl held")
 	n++
@@ -405,7 +405,7 @@ func genMatchCase(r *vlib.R, emit func(string)) int {
 		emit("bl held")
 		n++
 	}
-	if r.Chance(1, 4) {
+	if r.Chance(1, 3) {
 		n += emitDirLoad(r, u, emit)
 		n += emitQueries(r, u, emit, 2)
 	}
@@ -619,6 +619,9 @@ func stagingText(r *vlib.R, u *universe) string {
 		e, _ := u.entry(r, "plain")
 		full += dns.Fqdn(strings.ToLower(e)) + "\n"
 	}
+	if po := passedOn(); len(po) > 0 && r.Chance(1, 3) {
+		full += coverFor(r, vlib.Pick(r, po).qname) + "\n"
+	}
 	cut := len(full)
 	switch r.Intn(3) {
 	case 0: // everything written, not yet renamed
@@ -678,6 +681,61 @@ func apiExtra() int {
 		return 3
 	}
 	return 0
+}
+
+// passedOn: spellings this case already served and passed on to the next handler
+// (clean at the time), newest first - the state any per-name cache would hold.
+func passedOn() []heldReply {
+	if cs == nil {
+		return nil
+	}
+	var out []heldReply
+	for i := len(cs.held) - 1; i >= 0 && len(out) < 8; i-- {
+		if !cs.held[i].own && cs.held[i].qname != "" {
+			out = append(out, cs.held[i])
+		}
+	}
+	return out
+}
+
+// coverFor: a list line that makes name blocked: the name itself, a parent, or a wildcard above it.
+func coverFor(r *vlib.R, name string) string {
+	name = strings.ToLower(dns.Fqdn(name))
+	labels := dns.SplitDomainName(name)
+	if len(labels) == 0 {
+		return name
+	}
+	switch r.Intn(3) {
+	case 0:
+		return name
+	case 1:
+		k := r.Intn(len(labels))
+		return strings.Join(labels[k:], ".") + "."
+	default:
+		if len(labels) < 2 {
+			return name
+		}
+		k := 1 + r.Intn(len(labels)-1)
+		return "*." + strings.Join(labels[k:], ".") + "."
+	}
+}
+
+// reserve: ask again, in exactly the same spelling (and on both request kinds),
+// for names that were served before the list changed.
+func reserve(r *vlib.R, emit func(string), k int) int {
+	n := 0
+	for _, h := range passedOn() {
+		if n >= k {
+			break
+		}
+		emit(fmt.Sprintf("bl %s %s %d", vlib.Pick(r, []string{"serve", "wserve"}), enc(h.qname), h.qtype))
+		n++
+		if r.Chance(1, 3) {
+			emit(fmt.Sprintf("bl %s %s %d", vlib.Pick(r, []string{"serve", "wserve"}), enc(h.qname), vlib.Pick(r, qtypes)))
+			n++
+		}
+	}
+	return n
 }
 
 // remoteBudget bounds the remote-list downloads (each starts a loopback server).
@@ -759,6 +817,10 @@ func remoteListText(r *vlib.R, u *universe) string {
 	if p := presentEntry(r); p != "" && r.Chance(1, 3) {
 		sb.WriteString(p + "\n")
 	}
+	if po := passedOn(); len(po) > 0 && r.Chance(2, 3) {
+		// the list brings in a name a client already asked about while it was clean
+		sb.WriteString(coverFor(r, vlib.Pick(r, po).qname) + "\n")
+	}
 	if sb.Len() == 0 {
 		return "-"
 	}
@@ -769,7 +831,7 @@ func emitDirLoad(r *vlib.R, u *universe, emit func(string)) int {
 	if remoteBudget > 0 && r.Chance(1, 4) {
 		remoteBudget--
 		emit(fmt.Sprintf("bl remote %s %d %s", mainText(), vlib.Pick(r, []int{200, 200, 200, 404, 500}), remoteListText(r, u)))
-		return 1
+		return 1 + reserve(r, emit, 3)
 	}
 	if r.Chance(1, 3) {
 		// the same moment, but the process is killed and restarted instead
@@ -777,7 +839,7 @@ func emitDirLoad(r *vlib.R, u *universe, emit func(string)) int {
 		return 1
 	}
 	emit("bl dirload " + mainText() + " " + stagingText(r, u))
-	return 1
+	return 1 + reserve(r, emit, 3)
 }
 
 // emitCServe: 2-5 names, most of them blocked, served concurrently for one address type.
@@ -864,6 +926,14 @@ func gen(r *vlib.R, n int, tier string, emit func(string)) {
 	emit("bl wserve " + enc("sub.example.com.") + " 16")
 	emit("bl wserve " + enc("example.org.") + " 1")
 	emit("bl held")
+	// a name served while clean, then listed by a directory load / a remote list (no API mutation): asked again
+	emit("bl serve " + enc("late.cdn.example.org.") + " 1")
+	emit("bl wserve " + enc("Late2.cdn.example.org.") + " 28")
+	emit("bl dirload " + mainText() + " " + enc(header+"\nlate.cdn.example.org.\n"))
+	emit("bl serve " + enc("late.cdn.example.org.") + " 1")
+	emit("bl remote " + mainText() + " 200 " + enc("*.cdn.example.org\n"))
+	emit("bl wserve " + enc("Late2.cdn.example.org.") + " 28")
+	emit("bl serve " + enc("late.cdn.example.org.") + " 16")
 	// a save fails, storage recovers, the operator repeats the same call: it must reach disk
 	emit("bl new 0.0.0.0 :: _ " + encList([]string{"configured.example.com"}) + " _")
 	emit("bl set " + enc("configured.example.com"))
